@@ -3,6 +3,7 @@
 package gorums
 
 import (
+	"errors"
 	"context"
 
 	"google.golang.org/grpc/metadata"
@@ -77,8 +78,16 @@ func VerifC10(maxEvents, withWorkload int) {
 	var resp protoreflect.ProtoMessage
 	var err error
 	returned := false
+	// the probe is an RPC - or a send-waiting Unicast, which has no result: a message that the
+	// client drops (a node error it reports to nobody) simply never reaches the peer
+	oneway := vChoice("probe-oneway", 2) == 1
 	go func() {
-		resp, err = w.nodes[0].RPCCall(context.Background(), CallData{Message: probe, Method: "verif.probe"})
+		if oneway {
+			w.nodes[0].Unicast(context.Background(), CallData{Message: probe, Method: "verif.probe"})
+			err = vErrOneWayReturned
+		} else {
+			resp, err = w.nodes[0].RPCCall(context.Background(), CallData{Message: probe, Method: "verif.probe"})
+		}
 		returned = true
 	}()
 	vQuiescent()
@@ -109,11 +118,15 @@ func VerifC10(maxEvents, withWorkload int) {
 		// the node is up: the request must have been written (a send that fails because the
 		// connection attempt of *this* call failed is not possible: the peer accepts streams)
 		if returned && err != nil {
-			vFail("C10.node-that-came-back-not-contacted")
+			vFail("C10.node-that-came-back-not-contacted|C06.one-way-message-not-delivered-to-a-reachable-node")
 		}
-		vFail("C10.probe-not-delivered")
+		vFail("C10.probe-not-delivered|C06.one-way-message-not-delivered-to-a-reachable-node")
 	}
 	vAssert(a.msg.Message == protoreflect.ProtoMessage(probe), "C10.probe-payload")
+	if oneway {
+		vReach("probe-ok-oneway")
+		return
+	}
 	stamp := vStamp(p, a, 99)
 	vAssert(p.reply(a, stamp, nil), "harness.inbox-full")
 	vQuiescent() // timers are frozen: the reply must arrive without any of them
@@ -131,5 +144,7 @@ func VerifC10(maxEvents, withWorkload int) {
 	}
 	vReach("probe-ok")
 }
+
+var vErrOneWayReturned = errors.New("verif: one-way call returned")
 
 func VerifC10Twin(maxEvents, withWorkload int) { VerifC10(maxEvents, withWorkload); vFail("C10.twin") }
